@@ -53,7 +53,8 @@ def random_style(rng, mol):
     st.split_lines = rng.choice(["atoms+bonds", "all", "atoms", "bonds", "counts"])
     st.star = (rng.random() < 0.25 or mol.cls == "M11") and nb > 0
     st.star_all = mol.cls == "M11" and rng.random() < 0.7
-    st.header = rng.choice([None, ["", "", ""], ["name with - dash", "  prog", "comment-"], ["x" * 79, "y", "M  V30 looks like ctab"]])
+    st.header = rng.choice([None, ["", "", ""], ["name with - dash", "  prog", "comment-"], ["x" * 79, "y", "M  V30 looks like ctab"],
+                            ["name V2000", "  prog V3000", "  3  2  0  0  0  0  0  0  0  0999 V2000"]])
     st.trailing_blocks = rng.random() < 0.2
     st.after_end = rng.choice(["", "", "$$$$", "> <prop>\n1\n\n$$$$"])
     st.empty_bond_block = rng.random() < 0.3
